@@ -289,6 +289,18 @@ pub struct Sum {
 }
 
 impl Sum {
+    /// a summary computed by the specification (TLC's JSON: frames as abstract values)
+    pub fn from_json(v: &Value) -> Sum {
+        let set = |k: &str| -> BTreeSet<String> { v[k].as_array().map(|a| a.iter().map(|x| x.as_str().unwrap().to_string()).collect()).unwrap_or_default() };
+        let frames = |k: &str| -> Vec<Value> { let mut f = v[k].as_array().cloned().unwrap_or_default(); f.sort_by_key(text_frame); f };
+        let role = match s(v, "role").as_str() { "C" => "C", "RF" => "RF", "CF" => "CF", _ => "PC" };
+        Sum { role, timed: v["timed"].as_bool().unwrap(), r: set("r"), w: set("w"), c: set("c"),
+              used: frames("use").iter().map(text_frame).collect(), blk: frames("blk").iter().map(text_frame).collect(),
+              used_abs: frames("use"), blk_abs: frames("blk") }
+    }
+    pub fn same(&self, o: &Sum) -> bool {
+        self.role == o.role && self.timed == o.timed && self.r == o.r && self.w == o.w && self.c == o.c && self.used == o.used && self.blk == o.blk
+    }
     pub fn json(&self) -> Value {
         json!({"role": self.role, "timed": self.timed, "r": self.r, "w": self.w, "c": self.c,
                "use": self.used_abs, "blk": self.blk_abs})
@@ -325,10 +337,10 @@ pub fn summary_of(program: &Program, sigs: &ExternSignatureMap, i: &Instruction)
     if let Some(m) = h.matching_frames(program, i) {
         let mut u: Vec<&FrameIdentifier> = m.used.into_iter().collect();
         let mut b: Vec<&FrameIdentifier> = m.blocked.into_iter().collect();
-        u.sort_by_key(|f| f.to_quil_or_debug());
-        b.sort_by_key(|f| f.to_quil_or_debug());
-        sum.used = u.iter().map(|f| f.to_quil_or_debug()).collect();
-        sum.blk = b.iter().map(|f| f.to_quil_or_debug()).collect();
+        u.sort_by_key(|f| text_frame(&abs_frame(f)));
+        b.sort_by_key(|f| text_frame(&abs_frame(f)));
+        sum.used = u.iter().map(|f| text_frame(&abs_frame(f))).collect();
+        sum.blk = b.iter().map(|f| text_frame(&abs_frame(f))).collect();
         sum.used_abs = u.iter().map(|f| abs_frame(f)).collect();
         sum.blk_abs = b.iter().map(|f| abs_frame(f)).collect();
     }
@@ -548,9 +560,33 @@ pub fn classify(pid: &str, sums: &[Sum], term: &Option<Sum>, edges: &BTreeSet<Ed
 // ------------------------------------------------------------------------------- building real blocks
 
 pub struct BuiltBlock {
+    /// the real DefaultHandler's summaries (binding only; the verdict uses the specification's)
     pub sums: Vec<Sum>,
     pub term: Option<Sum>,
     pub edges: BTreeSet<Edge>,
+    /// the block's instructions and terminator in abstract syntax (None if outside the alphabets)
+    pub instrs: Vec<Option<Value>>,
+    pub term_instr: Option<Option<Value>>,
+}
+
+/// The specification's summary of an instruction, restated in Rust (role / is_scheduled kind tables, c27::rule,
+/// c26::rule).  Used only where no TLC-computed summary is at hand: the replay of a recorded history.  The primary
+/// source is spec/Handler.tla (TLC emits the summaries with every case and computes them in the trace validation).
+pub fn spec_sum(i: &Value, frames: &[Value], uq: &[u64]) -> Sum {
+    let k = s(i, "k");
+    let role = match k.as_str() {
+        "Reset" | "Capture" | "Delay" | "Fence" | "Pulse" | "RawCapture" | "SetFrequency" | "SetPhase" | "SetScale"
+        | "ShiftFrequency" | "ShiftPhase" | "SwapPhases" => "RF",
+        "Arith" | "Call" | "Compare" | "Convert" | "Logic" | "Unary" | "Move" | "Exchange" | "Load" | "Nop" | "Pragma" | "Store" => "C",
+        "Halt" | "Jump" | "JumpWhen" | "JumpUnless" | "Wait" => "CF",
+        _ => "PC",
+    };
+    let timed = match k.as_str() { "Reset" => false, "Wait" => true, _ => role == "RF" };
+    let acc = super::c27::rule(i, &json!({}));
+    let fm = super::c26::rule(i, frames, uq);
+    let frames_of = |key: &str| -> Vec<Value> { fm.get("some").map(|x| x[key].as_array().cloned().unwrap_or_default()).unwrap_or_default() };
+    Sum::from_json(&json!({"role": role, "timed": timed, "r": acc["reads"], "w": acc["writes"], "c": acc["captures"],
+                           "use": frames_of("used"), "blk": frames_of("blocked")}))
 }
 
 /// Program text: declarations, DEFFRAMEs, optionally a classical prefix block, the block under test (labelled
@@ -588,7 +624,9 @@ pub fn build_block(program: &Program, index: usize) -> Result<BuiltBlock, String
     let sigs = ExternSignatureMap::try_from(program.extern_pragma_map.clone()).map_err(|_| "extern".to_string())?;
     let sums: Vec<Sum> = b.instructions().iter().map(|i| summary_of(program, &sigs, i)).collect();
     let term = b.terminator().clone().into_instruction().map(|i| summary_of(program, &sigs, &i));
-    Ok(BuiltBlock { sums, term, edges: graph_edges(b) })
+    let instrs = b.instructions().iter().map(|i| abs_instr(i)).collect();
+    let term_instr = b.terminator().clone().into_instruction().map(|i| abs_instr(&i));
+    Ok(BuiltBlock { sums, term, edges: graph_edges(b), instrs, term_instr })
 }
 
 // ------------------------------------------------------------------------------- replay: blocks
@@ -605,7 +643,11 @@ pub fn replay_block(ctx: &Ctx, case: &Value) -> Outcome {
         let text = s(&h[0], "text");
         let index = util::u(&h[0], "block") as usize;
         let program = util::program(&text);
-        return judge_block(&pid, &program, index, None, None);
+        let frames = arr(&h[0], "frames").clone();
+        let uq: Vec<u64> = arr(&h[0], "uq").iter().map(|q| q.as_u64().unwrap()).collect();
+        let spec: Vec<Sum> = arr(&h[0], "instrs").iter().map(|i| spec_sum(i, &frames, &uq)).collect();
+        let tspec: Option<Sum> = arr(&h[0], "term").first().map(|i| spec_sum(i, &frames, &uq));
+        return judge_block(&pid, &program, index, None, None, Some((spec, tspec)));
     }
     let body: Vec<Instruction> = match arr(case, "src").iter().map(try_real_instr).collect() {
         Ok(b) => b,
@@ -626,10 +668,17 @@ pub fn replay_block(ctx: &Ctx, case: &Value) -> Outcome {
         Ok(p) => p,
         Err(e) => return not_reproduced(format!("program does not parse: {e}")),
     };
-    judge_block(&pid, &program, index, Some(s(case, "res")), Some(edges_from_json(&case["edges"])))
+    // the specification's summaries (Handler.tla) define the conflict relations of the verdict
+    let spec: Vec<Sum> = arr(case, "sums").iter().map(Sum::from_json).collect();
+    let tspec: Option<Sum> = arr(case, "tsum").first().map(Sum::from_json);
+    judge_block(&pid, &program, index, Some(s(case, "res")), Some(edges_from_json(&case["edges"])), Some((spec, tspec)))
 }
 
-fn judge_block(pid: &str, program: &Program, index: usize, want_res: Option<String>, want_edges: Option<BTreeSet<Edge>>) -> Outcome {
+/// `spec`: the specification's summaries of the block's instructions and terminator.  The verdict is the property
+/// evaluated on (spec summaries, real graph); the real handler's summaries are only compared with them (a
+/// difference is the business of C26 / C27 and a divergence here).
+fn judge_block(pid: &str, program: &Program, index: usize, want_res: Option<String>, want_edges: Option<BTreeSet<Edge>>,
+               spec: Option<(Vec<Sum>, Option<Sum>)>) -> Outcome {
     match build_block(program, index) {
         Err(e) => {
             // a program that does not schedule is outside the quantifier of C22-C24
@@ -641,8 +690,18 @@ fn judge_block(pid: &str, program: &Program, index: usize, want_res: Option<Stri
             o
         }
         Ok(b) => {
-            let mut o = Outcome::ok(nontrivial_for(pid, &b.sums, &b.term, &b.edges));
-            let (verdict, others) = classify(pid, &b.sums, &b.term, &b.edges);
+            let (sums, term) = match spec {
+                Some((sp, tsp)) if sp.len() == b.sums.len() && tsp.is_some() == b.term.is_some() => (sp, tsp),
+                Some(_) => return not_reproduced("the real block does not have the case's instructions".into()),
+                None => (b.sums.clone(), b.term.clone()),
+            };
+            let mut o = Outcome::ok(nontrivial_for(pid, &sums, &term, &b.edges));
+            let handler_differs = sums.iter().zip(&b.sums).position(|(x, y)| !x.same(y)).map(|n| n + 1)
+                .or_else(|| match (&term, &b.term) { (Some(x), Some(y)) if !x.same(y) => Some(END as usize), _ => None });
+            if let Some(n) = handler_differs {
+                o.diverge(format!("the DefaultHandler's summary of node {n} differs from the specification's (C26 / C27)"));
+            }
+            let (verdict, others) = classify(pid, &sums, &term, &b.edges);
             if !verdict.is_empty() {
                 o.violate(Violation::new(&verdict[0], want_edges.as_ref().map(edges_json).unwrap_or(Value::Null), edges_json(&b.edges))
                     .note(verdict.join("; ")));
@@ -900,10 +959,15 @@ pub fn drive_blocks(ctx: &Ctx) -> Summary {
             }
         };
         let regions: BTreeSet<String> = REGIONS.iter().map(|x| x.to_string()).chain(["zz".to_string()]).collect();
+        let mut uq: Vec<u64> = program.get_used_qubits().iter().map(fixed).collect();
+        uq.sort();
         for index in 0..sp.basic_blocks().len() {
             let b = build_block(&program, index).expect("block");
-            util::emit(&mut out, &json!({"ev": "reset", "prog": b.sums.iter().map(Sum::json).collect::<Vec<_>>(),
-                "term": b.term.iter().map(Sum::json).collect::<Vec<_>>(), "regions": regions, "frames": frames,
+            let instrs: Vec<Value> = b.instrs.iter().map(|i| i.clone().expect("abstraction of a driver instruction")).collect();
+            let term_instr: Vec<Value> = b.term_instr.iter().map(|i| i.clone().expect("abstraction of a driver terminator")).collect();
+            util::emit(&mut out, &json!({"ev": "reset", "instrs": instrs, "term": term_instr, "uq": uq,
+                "real": b.sums.iter().map(Sum::json).collect::<Vec<_>>(),
+                "real_term": b.term.iter().map(Sum::json).collect::<Vec<_>>(), "regions": regions, "frames": frames,
                 "text": text, "block": index}));
             for k in 1..=b.sums.len() as u64 {
                 let into: BTreeSet<Edge> = b.edges.iter().filter(|e| e.1 == k).cloned().collect();
@@ -913,7 +977,9 @@ pub fn drive_blocks(ctx: &Ctx) -> Summary {
                 util::emit(&mut out, &json!({"ev": "term"}));
             }
             util::emit(&mut out, &json!({"ev": "done", "edges": edges_json(&b.edges)}));
-            let mut o = Outcome::ok(nontrivial_for(&pid, &b.sums, &b.term, &b.edges));
+            let spec: Vec<Sum> = instrs.iter().map(|i| spec_sum(i, &frames, &uq)).collect();
+            let tspec: Option<Sum> = term_instr.first().map(|i| spec_sum(i, &frames, &uq));
+            let mut o = Outcome::ok(nontrivial_for(&pid, &spec, &tspec, &b.edges));
             o.count_n("events", b.sums.len() as u64 + 2 + b.term.is_some() as u64);
             o.count_n("instructions", b.sums.len() as u64);
             sum.absorb(&json!({"text": text, "block": index}), &o, true);
